@@ -2,7 +2,7 @@
 import json
 import random
 
-from .. import flow, oracles_sde as osde
+from .. import core, flow, oracles_sde as osde
 
 PROOFS = ['Tsv.Proofs.C18', 'Tsv.Proofs.C18Const']
 TRUSTED = ["Lean 4.33 kernel + Mathlib", "tracer/emitter (validated each run: real SDELogqp + solver.step vs trace incl. the closed-form "
@@ -15,7 +15,7 @@ TRUSTED = ["Lean 4.33 kernel + Mathlib", "tracer/emitter (validated each run: re
 def run(rep, tier, seed):
     flow.run_gen(rep, {'Logqp', 'Steps'}, seed, 10 if tier == 'quick' else 100)
     flow.run_proofs(rep, PROOFS, extra_scan=['Tsv.Gen.Logqp'])
-    fails, st = osde.c18_search(random.Random(seed), 40 if tier == 'quick' else 800)
+    fails, st = core.safe(osde.c18_search, random.Random(seed), 40 if tier == 'quick' else 800)
     rep.ob('oracle:logqp-on-real-sdeint', f"{st['evals']} runs", not fails, json.dumps(fails[:1])[:800])
     rep.cov['real_code_oracle'] = st
     rep.cov.update(evaluations=st['evals'], distinct_nontrivial=st['const_checks'],
